@@ -123,7 +123,7 @@ def run(L, tier, only=None):
     for op in arm_ops:
         if not only or op in only or "arms" in only:
             L.lemma("C15 recording, arm " + op, recording_lemma(opcode=op))
-    natives = [("load_core", w) for w in (["dup", "drop", "swap", "rot", "over", "I", "nth", "depth"] if not quick else ["dup", "swap", "I"])] + ([("arith::load", "+")] if not quick else []) + \
+    natives = [("load_core", w) for w in (["dup", "drop", "swap", "rot", "over", "I", "nth", "depth"] if not quick else ["dup", "swap", "over", "I"])] + ([("arith::load", "+")] if not quick else []) + \
               [("bitstr_ext::load", w) for w in ([] if quick else ["bits", "seek"])] + \
               [(None, h) for h in (["vec_builder_begin", "vec_builder_end", "foreach_init", "foreach_next"] if not quick else ["vec_builder_begin", "foreach_next"])]
     for nat in natives:
